@@ -73,6 +73,13 @@ const (
 	zzUpPass       = "up-SECRET"
 )
 
+const (
+	zzMirUser = "mir-user"
+	zzMirPass = "mir-SECRET"
+)
+
+var zzMirrorLogin bool // the mirror has its own login
+
 func zzMkClient(net *zzFaultNet, retry int, mirrorTLS config.TLSConf, withMirror bool) *Client {
 	c := NewClient(WithRetryLimit(retry), WithDelay(2*time.Millisecond, 8*time.Millisecond))
 	lg := slog.New(slog.NewTextHandler(io.Discard, nil))
@@ -83,7 +90,11 @@ func zzMkClient(net *zzFaultNet, retry int, mirrorTLS config.TLSConf, withMirror
 	up := &config.Host{TLS: config.TLSEnabled, User: zzUpUser, Pass: zzUpPass, Priority: 1}
 	if withMirror {
 		up.Mirrors = []string{zzMirror}
-		mk(zzMirror, &config.Host{TLS: mirrorTLS, Priority: 5})
+		mh := &config.Host{TLS: mirrorTLS, Priority: 5}
+		if zzMirrorLogin {
+			mh.User, mh.Pass = zzMirUser, zzMirPass
+		}
+		mk(zzMirror, mh)
 	}
 	mk(zzUp, up)
 	return c
@@ -106,6 +117,7 @@ func ZZC11_next() {
 	if withMirror && zzBool("mirror_plain_http") {
 		mirrorTLS = config.TLSDisabled
 	}
+	zzMirrorLogin = withMirror && zzBool("mirror_has_login")
 	c := zzMkClient(net, R, mirrorTLS, withMirror)
 	method := "GET"
 	noMirrors := false
@@ -114,7 +126,12 @@ func ZZC11_next() {
 	}
 	// requests that ask for errors to be ignored (anonymous mount, tag delete probe, referrers probe) set no back-off
 	ignoreErr := zzBool("ignore_err")
-	resp, err := c.Do(context.Background(), &Req{Host: zzUp, Method: method, Repository: "repo", Path: "manifests/tag", NoMirrors: noMirrors, IgnoreErr: ignoreErr})
+	// caller headers (manifest and tag requests carry an Accept list, blob requests none)
+	var hdrs http.Header
+	if zzBool("caller_headers") {
+		hdrs = http.Header{"Accept": {"application/vnd.oci.image.manifest.v1+json"}}
+	}
+	resp, err := c.Do(context.Background(), &Req{Host: zzUp, Method: method, Repository: "repo", Path: "manifests/tag", NoMirrors: noMirrors, IgnoreErr: ignoreErr, Headers: hdrs})
 	zzReach("do_returned")
 	// (i) bounded attempts
 	zzAssert(len(net.calls) <= R+2, "attempts_bounded_by_retry_limit")
@@ -158,11 +175,15 @@ func ZZC11_next() {
 		}
 	}
 	secret := base64.StdEncoding.EncodeToString([]byte(zzUpUser + ":" + zzUpPass))
+	mirSecret := base64.StdEncoding.EncodeToString([]byte(zzMirUser + ":" + zzMirPass))
 	for _, cl := range net.calls {
 		if cl.host == zzMirror {
 			zzReach("mirror_used")
 			zzAssert(method == "GET", "C12_state_changing_request_skips_mirrors")
 			zzAssert(!strings.Contains(cl.auth, secret), "C11_upstream_credentials_not_sent_to_a_mirror")
+			if strings.Contains(cl.auth, mirSecret) {
+				zzReach("mirror_credentials_sent_to_the_mirror")
+			}
 			if mirrorTLS == config.TLSDisabled {
 				zzAssert(cl.scheme == "http", "mirror_scheme_follows_its_tls_setting")
 			} else {
@@ -170,6 +191,7 @@ func ZZC11_next() {
 			}
 		} else {
 			zzAssert(cl.host == zzUp, "requests_go_only_to_configured_hosts")
+			zzAssert(!strings.Contains(cl.auth, mirSecret), "C11_mirror_credentials_not_sent_to_the_upstream")
 			zzAssert(cl.scheme == "https", "C11_tls_host_addressed_over_https")
 			if strings.Contains(cl.auth, secret) {
 				zzReach("credentials_sent_to_own_host")
